@@ -23,3 +23,4 @@ run_one() {
 export -f run_one
 printf '%s\n' $seeds | xargs -P "$J" -I{} bash -c 'run_one {}'
 git -C /repo worktree prune
+rm -rf /tmp/govc-scratch
